@@ -25,7 +25,8 @@ def canon(v):
     if isinstance(v, dict):
         return {str(k): canon(x) for k, x in v.items()}
     if hasattr(v, "model_dump"):
-        return {"__model__": type(v).__name__, **canon(v.model_dump())}
+        d = canon(v.model_dump())
+        return {"__model__": type(v).__name__, **d} if isinstance(d, dict) else {"__model__": type(v).__name__, "value": d}
     if hasattr(v, "items"):
         return {str(k): canon(x) for k, x in v.items()}
     return repr(v)
@@ -143,7 +144,7 @@ def answers(conv, strings, pairs, full=True):
             "expand_pair": [callm(conv, "expand_pair", p, i, strict=st, passthrough=pt) for st, pt in modes],
             "expand_pair_all": [callm(conv, "expand_pair_all", p, i, strict=st) for st in (False, True)],
             "expand_reference": [
-                callm(conv, "expand_reference", ReferenceTuple(p, i), strict=st, passthrough=pt)
+                call(lambda: conv.expand_reference(ReferenceTuple(p, i), strict=st, passthrough=pt))     # noqa: B023
                 for st, pt in modes
             ],
             "format_curie": callm(conv, "format_curie", p, i),
@@ -153,7 +154,10 @@ def answers(conv, strings, pairs, full=True):
 
 
 def snapshot(conv, strings, pairs, full=True, ordered=True):
-    return {"structure": structure(conv, ordered=ordered), "answers": answers(conv, strings, pairs, full=full)}
+    """Answers first, structure afterwards: whatever a converter builds or tidies up lazily on lookup has
+    then happened, and the structure is not made stale by the snapshot's own queries."""
+    ans = answers(conv, strings, pairs, full=full)
+    return {"structure": structure(conv, ordered=ordered), "answers": ans}
 
 
 def digest(value) -> str:
